@@ -497,6 +497,8 @@ def run_property(mod, tier, seed, only_sub=None, jobs=16):
         # round-robin over the shards, latest (least minimal) first, distinct only
         seen, picked = set(), []
         lists = [list(reversed(x)) for x in sorted(a["samples"], key=lambda x: json.dumps(x, sort_keys=True, default=repr))]
+        # start each shard's list at a different position, so that the picks come from different stages of the runs
+        lists = [lst[i % len(lst):] + lst[:i % len(lst)] if lst else lst for i, lst in enumerate(lists)]
         while any(lists) and len(picked) < per_sub_quota:
             for lst in lists:
                 if lst and len(picked) < per_sub_quota:
